@@ -111,5 +111,8 @@ SILENT_EDITS = [   # behaviour-preserving, no new violation
 
 
 def run(ctx):
+    from ..rules import dD3
     return [pC45.rule_guard(ctx), pC45.rule_pair(ctx), sC45.rule_return_conditions(ctx), pC45.rule_macros(ctx), pC45.rule_events(ctx),
-            sC45.rule_args(ctx), sC45.rule_nogil(ctx), sC45.rule_window(ctx), sC45.rule_branch(ctx), sC45.rule_count(ctx), s4C45.rule_bracket(ctx)]
+            sC45.rule_args(ctx), sC45.rule_nogil(ctx), sC45.rule_window(ctx), sC45.rule_branch(ctx), sC45.rule_count(ctx), s4C45.rule_bracket(ctx),
+            # round 6 (rules/dD3.py): SKIPSTART armed after the repair 74e3ab4c6; CLOSEGATE and DEFER report the known findings K17 / K18
+            dD3.rule_closegate(ctx), dD3.rule_defer(ctx), dD3.rule_skipstart(ctx)]
